@@ -39,6 +39,14 @@ def cases_for(tier):
                         for limit in (d, 200):
                             cases.append(dict(shape='single', tail=list(tail), d=d,
                                               branch=[first] + rest, flush=fl, limit=limit))
+    # the activation height of the OP_RETURN rule inside the window that gets undone: blocks with
+    # a bare OP_RETURN output (recipe fan) exactly at, just below and just above it
+    for act in (4, 5, 6):
+        for tail in itertools.product(['fan', 'opret', 'old'], repeat=3):
+            for d in (1, 2, 3):
+                for first in ('replay', 'fan', 'cb'):
+                    cases.append(dict(shape='single', tail=list(tail), d=d, flush='----F',
+                                      branch=[first] + ['opret'] * d, limit=d, activation=act))
     sub = tails[::5] if q else tails[::2]
     for tail in sub:
         for d, d2 in ((1, 1), (2, 1), (1, 2), (2, 3), (3, 2)):
